@@ -1,8 +1,7 @@
 import Props.NamedPrimes
 /-!
-# Proofs.UncondBase — shared by the per-property files `Props/Uncond<Cxx>.lean`: membership / primality of the 13 curves of
-`NamedPrimes.unconditionalCurves` from the kernel-checked certificates, and primality of all 34 numbers of the table from
-the four uncertified ones
+# Proofs.UncondBase — shared by the per-property files `Props/Uncond<Cxx>.lean`: membership / primality of the (now all 17) certified curves of
+`NamedPrimes.unconditionalCurves` from the kernel-checked certificates, and primality of all 34 numbers of the table
 -/
 namespace Uncond
 open Named NamedPrimes Ecdsa GroupInterface Jac
@@ -18,9 +17,8 @@ theorem primeN (hr : r ∈ unconditionalCurves) : r.n.Prime := (unconditional_su
 /-- `ZMod p` is a field: from the certificate -/
 theorem factP (hr : r ∈ unconditionalCurves) : Fact r.p.Prime := ⟨primeP hr⟩
 
-/-- the four remaining primality hypotheses give primality of all 34 numbers of the table -/
-theorem all_primes_given (h1 : Nat.Prime Gen.curve_NIST384p.n) (h2 : Nat.Prime Gen.curve_NIST521p.n)
-    (h3 : Nat.Prime Gen.curve_BRAINPOOLP384r1.p) (h4 : Nat.Prime Gen.curve_BRAINPOOLP512r1.p) :
+/-- primality of all 34 numbers of the table (from the certificates; any uncertified number is a hypothesis here) -/
+theorem all_primes :
     ∀ c ∈ Gen.curveTable, c.p.Prime ∧ c.n.Prime := by
   intro c hc
   simp only [Gen.curveTable, List.mem_cons, List.mem_nil_iff, or_false] at hc
@@ -28,16 +26,16 @@ theorem all_primes_given (h1 : Nat.Prime Gen.curve_NIST384p.n) (h2 : Nat.Prime G
   · exact ⟨prime_p_NIST192p, prime_n_NIST192p⟩
   · exact ⟨prime_p_NIST224p, prime_n_NIST224p⟩
   · exact ⟨prime_p_NIST256p, prime_n_NIST256p⟩
-  · exact ⟨prime_p_NIST384p, h1⟩
-  · exact ⟨prime_p_NIST521p, h2⟩
+  · exact ⟨prime_p_NIST384p, prime_n_NIST384p⟩
+  · exact ⟨prime_p_NIST521p, prime_n_NIST521p⟩
   · exact ⟨prime_p_SECP256k1, prime_n_SECP256k1⟩
   · exact ⟨prime_p_BRAINPOOLP160r1, prime_n_BRAINPOOLP160r1⟩
   · exact ⟨prime_p_BRAINPOOLP192r1, prime_n_BRAINPOOLP192r1⟩
   · exact ⟨prime_p_BRAINPOOLP224r1, prime_n_BRAINPOOLP224r1⟩
   · exact ⟨prime_p_BRAINPOOLP256r1, prime_n_BRAINPOOLP256r1⟩
   · exact ⟨prime_p_BRAINPOOLP320r1, prime_n_BRAINPOOLP320r1⟩
-  · exact ⟨h3, prime_n_BRAINPOOLP384r1⟩
-  · exact ⟨h4, prime_n_BRAINPOOLP512r1⟩
+  · exact ⟨prime_p_BRAINPOOLP384r1, prime_n_BRAINPOOLP384r1⟩
+  · exact ⟨prime_p_BRAINPOOLP512r1, prime_n_BRAINPOOLP512r1⟩
   · exact ⟨prime_p_SECP112r1, prime_n_SECP112r1⟩
   · exact ⟨prime_p_SECP112r2, prime_n_SECP112r2⟩
   · exact ⟨prime_p_SECP128r1, prime_n_SECP128r1⟩
